@@ -218,6 +218,10 @@ func run(c lib.Case) (lib.Out, any) {
 		}
 		before := snap(dir, objs)
 		packsBefore := packNames(dir)
+		var roundFsckBefore []string
+		if c.Bool("fsck") {
+			roundFsckBefore = fsck(dir)
+		}
 		// the operation, on a freshly opened repository
 		st2 := openStorage(dir, c.Bool("exclusive"))
 		repo, err := git.Open(st2, nil)
@@ -244,6 +248,7 @@ func run(c lib.Case) (lib.Out, any) {
 		ex := map[string]any{"op": r.S("op"), "before": before.digest, "after": after.digest,
 			"loose_after": after.loose, "packed_after": after.packed, "packs_before": packsBefore, "packs_after": packNames(dir)}
 		if c.Bool("fsck") {
+			ex["fsck_before"] = roundFsckBefore
 			ex["fsck_after"] = fsck(dir)
 		}
 		if opErr != nil {
